@@ -411,6 +411,48 @@ pub fn property(tier: Tier) -> Property {
             exhaustive: false,
         }));
     }
+    if crate::config_name() == "default" {
+        stages.push(Box::new(Stage {
+            name: "sat-many-matches",
+            source: Source::Enumerate(std::sync::Arc::new(move || {
+                use crate::tm::*;
+                let pool = rule_pool(LangId::Core);
+                let ri = pool.iter().position(|r| r.name == "g6-p-drop").unwrap();
+                let kk = |t: Tm| Arg::K(vec![], t);
+                let mut out = Vec::new();
+                // each case takes about half a minute of CPU: two cases in the quick tier, the whole family in the thorough tier
+                let ns: Vec<usize> = if tier == Tier::Quick { vec![16] } else { vec![14, 15, 16, 17, 19, 24, 30] };
+                for n in ns {
+                    for mode in 0..3u8 {
+                        if tier == Tier::Quick && mode == 2 {
+                            continue;
+                        }
+                        let g = |p: &[Name]| Tm::leaf("g6", p);
+                        let mut ops = Vec::new();
+                        // n parents (p L M_i): L = (g6 a..f), M_i = w^i (p (g5 a b c d e) (v f)), an asymmetric class over the same six slots
+                        for i in 0..n {
+                            let mut m = Tm::node("p", vec![kk(Tm::leaf("g5", &[0, 1, 2, 3, 4])), kk(Tm::leaf("v", &[5]))]);
+                            for _ in 0..i {
+                                m = Tm::node("w", vec![kk(m)]);
+                            }
+                            ops.push(MOp::Add(Tm::node("p", vec![kk(g(&[0, 1, 2, 3, 4, 5])), kk(m)])));
+                        }
+                        // then g6 is made fully symmetric: a transposition and a 6-cycle
+                        ops.extend(vec![MOp::Add(g(&[0, 1, 2, 3, 4, 5])), MOp::Add(g(&[1, 0, 2, 3, 4, 5])), MOp::Union(n, n + 1), MOp::Add(g(&[1, 2, 3, 4, 5, 0])), MOp::Union(n, n + 2)]);
+                        let base = Mixed { lang: LangId::Core, naming: Naming::Alpha, ops, extraction_subst: false, rule_slot_variant: 0 };
+                        out.push(SatCase { base, rules: vec![ri], iter_limit: 3, node_limit: 4000, hook_fail_at: None, mode, staged: false, hook_union: None, node_limit_rel: None });
+                    }
+                }
+                Box::new(out.into_iter())
+            })),
+            run,
+            panic_is_violation: false,
+            render: |c: &SatCase| format!("{} parents (p (g6 a..f) M_i), M_i = w^i (p (g5 a..e) (v f)), g6 then made fully symmetric; rule g6-p-drop; mode={}", c.base.ops.iter().filter(|o| matches!(o, MOp::Add(t) if t.op == "p")).count(), ["apply_rewrites loop", "Runner", "run_eqsat"][(c.mode % 3) as usize]),
+            rule: "fixed family: 14-30 parents (p L M_i) over a 6-slot leaf L that is then made fully symmetric and asymmetric classes M_i over the same slots; the rule (p (g6 $a..$f) ?x) => (w ?x) matches each parent in 720 ways (one per arrangement of L's arguments relative to M_i's), i.e. more than 10 000 matches of one rule in one call; the saturation report must be true (both sides of every match equal, one more round changes nothing); default build only",
+            case_timeout_s: tier.pick(120, 480),
+            exhaustive: true,
+        }));
+    }
     stages.push(Box::new(Stage {
         name: "sat-core-collapse",
         source: random(collapse_strategy, tier.pick(2000, 40_000)),
